@@ -68,6 +68,8 @@ TNext ==
   \/ Is("HistSpend") /\ HistSpend(Cur.t) /\ RGhost
   \/ Is("HistConfAhead") /\ HistConfAhead(Cur.t) /\ RGhost
   \/ Is("HistSpendAhead") /\ HistSpendAhead(Cur.t) /\ RGhost
+  \/ Is("RelSpend") /\ RelevantSpend(Cur.t) /\ RGhost
+  \/ Is("RelSpendAhead") /\ RelevantSpendAhead(Cur.t) /\ RGhost
   \/ Reset
   \/ (l = Len(Trace) + 1 /\ UNCHANGED <<vars, l, rtold, rtoldAt>>)
 TSpec == TInit /\ [][TNext]_<<vars, l, rtold, rtoldAt>>
